@@ -11,6 +11,7 @@ fn main() {
     let code = match w {
         "w_reg" => vh::w_reg::main(rest),
         "w_channel" => vh::w_channel::main(rest),
+        "w_iter" => vh::w_iter::main(rest),
         "w_halflock" => vh::w_halflock::main(rest),
         _ => {
             eprintln!("unknown workload {:?}", w);
